@@ -15,6 +15,7 @@ LEVEL_TEXT = (
     "inserted into only at the reviewed owner sites (so nothing can re-create an entry after cleanup); tasks that run "
     "user code are created only through Function.create_task; task.executor rejects coroutine and pyscript functions"
     "; done callbacks that add/remove callbacks or claim names do not disturb the others; task.cancel hands a task to the reaper only once its wrapper registered it; the reaper and waiter loops survive a failing command"
+    '; run_coro is only the outermost coroutine of a task made for it; every run (trigger, service, task.create) is started with its evaluator; bound methods compare by (function, instance); a raising done callback is reported once and stops nothing'
 )
 LEVEL_NOTE = (
     "assumes every await may be cancelled and every non-reviewed call may raise; the raw task-creation sites listed in the "
